@@ -1,6 +1,6 @@
 (* C08 - entity pose follows the position packets addressed to it.  Statements only (proofs: PoseProofs.v).
    These hold for the code AFTER the repair recorded in known_findings.json (fixed: C08-a). *)
-From RU Require Import Base Types Defs BitReader World WireSpec LwwProofs PoseProofs Layout LayoutProofs CreateProofs PoseHistory.
+From RU Require Import Base Types Defs BitReader World WireSpec LwwProofs PoseProofs Layout LayoutProofs CreateProofs PoseHistory TimeProofs.
 From Coq Require Import Lia.
 Open Scope N_scope.
 
@@ -97,3 +97,9 @@ Proof.
   - repeat constructor; unfold in_i32; try lia.
   - vm_compute. repeat split; reflexivity.
 Qed.
+
+(* "a packet naming a not-yet-created entity is ignored" is about the POSITION in the stream: time stamps are never consulted, so an entity
+   created by a later packet under the same (or an earlier) time stamp is still "not yet created" *)
+Theorem C08_step_ignores_time : forall St w p q, same_but_time p q -> step St w p = step St w q.
+Proof. exact step_ignores_time. Qed.
+Print Assumptions C08_step_ignores_time.
